@@ -3,6 +3,7 @@ package main
 import (
 	"fmt"
 	"go/ast"
+	"go/parser"
 	"go/printer"
 	"path/filepath"
 	"strings"
@@ -35,7 +36,11 @@ func gotextFamily(files []string) string {
 		if want == nil {
 			panic(untranslatable{"gotext: no function list for " + path})
 		}
-		f := parse(path)
+		// object resolution on: a local is told from a type or function of the same name by its declaration
+		f, err := parser.ParseFile(fset, path, nil, 0)
+		if err != nil {
+			panic(untranslatable{err.Error()})
+		}
 		found := map[string]bool{}
 		for _, d := range f.Decls {
 			fd, ok := d.(*ast.FuncDecl)
@@ -52,6 +57,9 @@ func gotextFamily(files []string) string {
 				continue
 			}
 			found[fd.Name.Name] = true
+			normaliseIndexLoops(fd)
+			fd = reparseResolved(fd) // names introduced by the rewrite get declaration objects too
+			alphaNormalise(fd)
 			var pb strings.Builder
 			(&printer.Config{Mode: printer.RawFormat, Tabwidth: 1}).Fprint(&pb, fset, fd)
 			lines := []string{}
@@ -71,4 +79,69 @@ func gotextFamily(files []string) string {
 	}
 	sb.WriteString("end Golem.Gen.PipeText\n")
 	return sb.String()
+}
+
+// Canonical names: the type parameters, parameters and locals a function declares itself are renamed T0…, p0…, v0… in
+// the order of their declarations (by declaration object, so `queue := &queue[A]{}` renames the variable, not the type).
+// Two texts that differ only in the choice of these names print the same.
+func alphaNormalise(fd *ast.FuncDecl) {
+	names := map[*ast.Object]string{}
+	nT, nP, nV := 0, 0, 0
+	inside := func(o *ast.Object) bool { return o != nil && o.Pos() >= fd.Pos() && o.Pos() <= fd.End() }
+	fields := func(fl *ast.FieldList, prefix string, n *int) {
+		if fl == nil {
+			return
+		}
+		for _, f := range fl.List {
+			for _, id := range f.Names {
+				if id.Obj != nil && id.Name != "_" && names[id.Obj] == "" {
+					names[id.Obj] = fmt.Sprintf("%s%d", prefix, *n)
+					*n++
+				}
+			}
+		}
+	}
+	fields(fd.Type.TypeParams, "T", &nT)
+	fields(fd.Type.Params, "p", &nP)
+	fields(fd.Type.Results, "p", &nP)
+	// locals, in source order of their declaring identifiers
+	ast.Inspect(fd.Body, func(n ast.Node) bool {
+		if id, ok := n.(*ast.Ident); ok && id.Obj != nil && id.Name != "_" && inside(id.Obj) && names[id.Obj] == "" &&
+			(id.Obj.Kind == ast.Var || id.Obj.Kind == ast.Con) && id.Obj.Pos() == id.Pos() {
+			names[id.Obj] = fmt.Sprintf("v%d", nV)
+			nV++
+		}
+		return true
+	})
+	ast.Inspect(fd, func(n ast.Node) bool {
+		if id, ok := n.(*ast.Ident); ok && id.Obj != nil {
+			if to, ok := names[id.Obj]; ok {
+				id.Name = to
+			}
+		}
+		return true
+	})
+}
+
+// print and parse again, WITH object resolution (names of other declarations of the package stay unresolved)
+func reparseResolved(fd *ast.FuncDecl) *ast.FuncDecl {
+	var sb strings.Builder
+	sb.WriteString("package p\n\n")
+	save := fd.Doc
+	fd.Doc = nil
+	err := printer.Fprint(&sb, fset, fd)
+	fd.Doc = save
+	if err != nil {
+		return fd
+	}
+	f, err := parser.ParseFile(fset, fd.Name.Name+" (rewritten)", sb.String(), 0)
+	if err != nil {
+		return fd
+	}
+	for _, d := range f.Decls {
+		if nd, ok := d.(*ast.FuncDecl); ok {
+			return nd
+		}
+	}
+	return fd
 }
